@@ -163,6 +163,24 @@ PROPS['C16'] = {
                     'threading.Lock sequential model (from C12)', 'event delivery order between layers is taken from C18'],
 }
 
+PROPS['C07'] = {
+    'sidecars': ['contracts/C07_acks.py'],
+    'level': 'other',
+    'explanation': 'Discharged for all stanzas (symbolic node: any tag, attributes, children): notifications layer - every non-raising path of '
+                   'recvNotification ends with exactly one ack carrying id, class notification, type, sender (to) and participant, the only '
+                   'raising path is the picture notification that is neither set nor delete (by design); calls layer - offer -> one receipt '
+                   'with the offer/call-id child, anything else -> one ack of class call, entity forwarded once; iq layer - urn:xmpp:ping -> '
+                   'one pong (type result, xmlns w:p, same id); AxolotlControlLayer - encrypt notifications (count / identity) acked once and '
+                   'consumed, everything else forwarded upward exactly once; messages layer - a plain payload that is neither text, extended '
+                   'text nor a pure key distribution -> exactly one receipt (id, to, participant), key-distribution-only payloads surface '
+                   'nothing.  The REAL ack / receipt / pong / iq entity classes are executed symbolically (constructors, inheritance, '
+                   'setAttribute).  NOT decided here: the composition over the parallel protocol layers of the full stack (that no second '
+                   'layer also answers) and the media layer receipt for unsupported media types: level other.',
+    'assumptions': ['ProtocolTreeNode.getChild is an assumed pure function of (node, tag); entity parsers (fromProtocolTreeNode) of '
+                    'notification/call/encrypt entities and the protobuf converter are opaque events (total on their documented shape: C09/C10)',
+                    'toLower/toUpper opaque'],
+}
+
 NOT_APPLICABLE = {
     'C11': 'quantifies over thread interleavings (2-4 sender threads through lock/queue operations); no verifier available here '
            'has a thread or permission model and sequential contracts cannot express "for every schedule" (DESIGN.md section 8)',
